@@ -670,5 +670,49 @@ fn listenerless_subtree(ctx: &mut Ctx) {
 			}
 		}
 	}
+	// a PLAIN track nested under a spatial track (directly, and two levels down) whose volume / send level is mapped from the
+	// listener distance: the distance is that of the spatial ancestor to its listener
+	for d in [2.0f32, 10.0, 18.0, 30.0] {
+		for depth in [1usize, 2] {
+			for on_route in [false, true] {
+				ctx.evals += 1;
+				ctx.traces += 1;
+				let mut m = rig::manager(SR, 4, rig::caps(4), MainTrackBuilder::new());
+				let a = m.add_listener(glam::Vec3::ZERO, glam::Quat::IDENTITY).expect("listener");
+				let send = m.add_send_track(SendTrackBuilder::new()).expect("send");
+				let mut outer = m.add_spatial_sub_track(&a, glam::Vec3::new(d, 0.0, 0.0), SpatialTrackBuilder::new().attenuation_function(None).spatialization_strength(0.0)).expect("outer");
+				let map: kira::Value<kira::Decibels> = kira::Value::FromListenerDistance(kira::Mapping { input_range: (0.0, 20.0), output_range: (kira::Decibels(0.0), kira::Decibels(-20.0)), easing: kira::Easing::Linear });
+				let mut keep: Vec<Box<dyn std::any::Any>> = vec![];
+				let tb = if on_route { TrackBuilder::new().with_send(&send, map) } else { TrackBuilder::new().volume(map) };
+				let mut inner = if depth == 2 {
+					let mut mid = outer.add_sub_track(TrackBuilder::new()).expect("mid");
+					let t = mid.add_sub_track(tb).expect("inner");
+					keep.push(Box::new(mid));
+					t
+				} else {
+					outer.add_sub_track(tb).expect("inner")
+				};
+				let _p = inner.play(ProbeSoundData::new((0.5, 0.0), (0.5, 0.0))).expect("play");
+				let mut out = vec![];
+				for n in [3usize, 4, 5] {
+					rig::render_stereo(&mut m, n, &mut out);
+				}
+				let db = -20.0 * (d as f64 / 20.0).clamp(0.0, 1.0);
+				// (sends are post-fader: with the route variant the track itself passes at 0 dB and the send adds the mapped share)
+				let want = if on_route { 0.5 + 0.5 * 10f64.powf(db / 20.0) } else { 0.5 * 10f64.powf(db / 20.0) };
+				// (the first chunk interpolates from the parameter's default)
+				if let Some(i) = out.iter().enumerate().skip(4).find(|(_, f)| (f.0 as f64 - want).abs() > 1e-5).map(|(i, _)| i) {
+					ctx.fail(
+						"a plain track nested under a spatial track does not see the listener distance of its spatial ancestor (volume / send level mapped from the distance) :: nested spatial tracks, distance-mapped gain".to_string(),
+						format!("spatial track at distance {} from its listener (no attenuation, strength 0); plain track {} level(s) below it whose {} is FromListenerDistance mapped (0..20) -> (0 dB..-20 dB); DC 0.5: frame {} = {:?}, expected {}", d, depth, if on_route { "send route (track itself at 0 dB)" } else { "volume" }, i, out[i], want),
+					);
+				} else {
+					ctx.nontrivial_extra += 1;
+				}
+				ctx.state(hash64(&("distance child", d as i32, depth, on_route)));
+				drop((inner, outer, keep, send, a));
+			}
+		}
+	}
 	ctx.outcome(hash64(&"listenerless"));
 }
